@@ -446,13 +446,31 @@ func init() {
 	}
 	H["time.Unix"] = func(fr *Frame, st *State, c *ast.CallExpr, fn *types.Func) []Val {
 		x := fr.x
-		x.used("time.Time: (unix seconds, nanoseconds) pair")
+		x.used("time.Time: (unix seconds, nanoseconds) pair; time.Unix normalises nsec into [0,1e9)")
 		x.u.declSort("Time")
 		s := fr.expr(st, c.Args[0])
 		n := fr.expr(st, c.Args[1])
-		if n.T != "0" {
-			return []Val{fr.unsupported(st, c, "time.Unix with nanoseconds", fn.Type().(*types.Signature).Results().At(0).Type())}
+		rt := fn.Type().(*types.Signature).Results().At(0).Type()
+		if n.T == "0" {
+			return []Val{x.bind(Val{T: "(time.mk " + s.T + " 0)", S: "Time", Ty: rt}, "t")}
 		}
-		return []Val{x.bind(Val{T: "(time.mk " + s.T + " 0)", S: "Time", Ty: fn.Type().(*types.Signature).Results().At(0).Type()}, "t")}
+		t := x.havocVal("t", rt)
+		x.u.gfact(st.pc, fmt.Sprintf("(=> (and (<= 0 %s) (< %s 1000000000)) (= %s (time.mk %s %s)))", n.T, n.T, t.T, s.T, n.T))
+		x.u.gfact(st.pc, fmt.Sprintf("(= (+ (* 1000000000 (time.unix %s)) (time.nsec %s)) (+ (* 1000000000 %s) %s))", t.T, t.T, s.T, n.T))
+		return []Val{t}
+	}
+	H["encoding/hex.Encode"] = func(fr *Frame, st *State, c *ast.CallExpr, fn *types.Func) []Val {
+		x := fr.x
+		x.used("hex.Encode(dst, src): dst = bytes of hexs(src) when len(dst) == 2*len(src)")
+		x.need("hexs")
+		x.need("str2bytes")
+		dst := fr.expr(st, c.Args[0])
+		src := fr.expr(st, c.Args[1])
+		fr.safety(st, "index", fr.src(c), c, fmt.Sprintf("(>= (slen_Int %s) (* 2 (slen_Int %s)))", dst.T, src.T))
+		hv := x.havocVal("hexdst", bytesT())
+		x.u.gfact(st.pc, fmt.Sprintf("(= (slen_Int %s) (slen_Int %s))", hv.T, dst.T))
+		nv := x.bind(Val{T: fmt.Sprintf("(ite (= (slen_Int %s) (* 2 (slen_Int %s))) (str2bytes (hexs %s)) %s)", dst.T, src.T, src.T, hv.T), S: dst.S, Ty: dst.Ty}, "hexdst")
+		fr.assign(st, c.Args[0], nv)
+		return []Val{x.bind(Val{T: "(* 2 (slen_Int " + src.T + "))", S: "Int", Ty: types.Typ[types.Int]}, "n")}
 	}
 }
